@@ -7,6 +7,7 @@
 //   4 variant<tracked-cm, int, tracked-cm>              REPEATED non-trivial alternative type: everything by index
 //   5 variant<int, int>                                 repeated trivial alternative type
 //   6 variant<string-like, string-like, char>           repeated non-trivial (std::string member) alternative type
+//   7 variant<tracked-cm>                               a single alternative
 // With repeated types the type-based forms (emplace<T>, in_place_type, holds_alternative, get_if<T>, converting
 // construction/assignment) are ill-formed in both libraries and are left out; the index-based ones remain.
 // Twin worlds (vf_c07.hpp): the same operation text drives std::variant and etl::variant; traces are compared.
@@ -98,12 +99,18 @@ using LW1 = LR1;
 using LW2 = L2;
     #define VF_UNIT "C07_variant_rep_int"
 constexpr char const* kName = "variant<int,int>";
-#else
+#elif VF_CFG == 6
 using LX = LR3;
 using LW1 = LR1;
 using LW2 = LR2;
     #define VF_UNIT "C07_variant_rep_str"
 constexpr char const* kName = "variant<string-like,string-like,char>";
+#else
+using LX = TL<TCM>; // a single alternative; visited together with 2- and 3-alternative variants
+using LW1 = L3;
+using LW2 = L2;
+    #define VF_UNIT "C07_variant_1"
+constexpr char const* kName = "variant<tracked-cm>";
 #endif
 constexpr std::size_t N  = LX::size;
 constexpr std::size_t N1 = LW1::size;
